@@ -138,6 +138,10 @@ func (x *g) genMethod(sv *spec.Service, j int, used map[string]bool) {
 	if len(x.solo) > 0 && m.Payload != nil && m.Payload.Type.Kind == spec.Object && x.chance(2, 3) {
 		m.Payload.Type.Attrs = append(m.Payload.Type.Attrs, &spec.Attr{Name: "solo_in", Type: &spec.Type{Kind: spec.Ref, Ref: x.solo[x.r.Intn(len(x.solo))]}})
 	}
+	// an attribute typed by the outer alias of a chain (validations on the innermost alias), wherever genHTTP puts it
+	if len(x.chain) > 0 && m.Payload != nil && m.Payload.Type.Kind == spec.Object && x.chance(2, 3) {
+		m.Payload.Type.Attrs = append(m.Payload.Type.Attrs, &spec.Attr{Name: "chain_in", Type: &spec.Type{Kind: spec.Ref, Ref: x.chain[x.r.Intn(len(x.chain))]}})
+	}
 	// ---- security (needs an object payload we own: inline)
 	if len(x.s.Schemes) > 0 {
 		switch {
@@ -152,7 +156,12 @@ func (x *g) genMethod(sv *spec.Service, j int, used map[string]bool) {
 	}
 	// ---- result
 	rk := x.r.Intn(10)
+	textResult := x.o.Profile != "grpc" && x.o.Profile != "views" && (x.o.Profile == "http-loc" && x.chance(1, 5) || x.chance(1, 14))
 	switch {
+	case textResult:
+		// a String or Bytes result (genResponses announces it with a text media type most of the time)
+		m.Result = &spec.Attr{Type: &spec.Type{Kind: x.r.Pick(spec.Bytes, spec.String, spec.Bytes)}}
+		x.s.AddFeature("result-primitive", "result-text-candidate")
 	case rk == 0:
 		x.s.AddFeature("result-none")
 	case rk == 1:
@@ -190,6 +199,9 @@ func (x *g) genMethod(sv *spec.Service, j int, used map[string]bool) {
 	default:
 		m.Result = &spec.Attr{Type: x.genObject(1, "")}
 		x.s.AddFeature("result-inline")
+	}
+	if len(x.chain) > 0 && m.Result != nil && m.Result.Type.Kind == spec.Object && x.chance(1, 2) {
+		m.Result.Type.Attrs = append(m.Result.Type.Attrs, &spec.Attr{Name: "chain_out", Type: &spec.Type{Kind: spec.Ref, Ref: x.chain[x.r.Intn(len(x.chain))]}})
 	}
 	if len(x.solo) > 0 && m.Result != nil && m.Result.Type.Kind == spec.Object && x.chance(2, 3) {
 		m.Result.Type.Attrs = append(m.Result.Type.Attrs, &spec.Attr{Name: "solo_out", Type: &spec.Type{Kind: spec.Ref, Ref: x.solo[x.r.Intn(len(x.solo))]}})
@@ -559,6 +571,17 @@ func (x *g) genHTTP(sv *spec.Service, m *spec.Method, idx int) {
 		}
 	}
 	h.Routes = append(h.Routes, spec.Route{Verb: verb, Path: path})
+	// multipart requests and raw (skipped) bodies: generation-level features (C01/C07), never driven at run time
+	if !x.o.Runtime && !sv.GRPC && m.Stream == "" {
+		switch {
+		case hasBody && verb != "GET" && h.Body == "" && x.chance(1, 7):
+			h.Multipart = true
+			x.s.AddFeature("multipart-request")
+		case !hasBody && x.chance(1, 9):
+			h.SkipReqBody = true
+			x.s.AddFeature("skip-request-body")
+		}
+	}
 	if !strings.Contains(path, "{*") && (x.chance(1, 6) || (x.o.Profile == "openapi" && x.chance(1, 2))) {
 		alt := "/alt" + path
 		h.Routes = append(h.Routes, spec.Route{Verb: verb, Path: alt})
@@ -625,6 +648,10 @@ func (x *g) genResponses(sv *spec.Service, m *spec.Method) {
 	h := m.HTTP
 	r := &spec.HTTPResponse{}
 	if m.Result == nil {
+		if !x.o.Runtime && !sv.GRPC && m.Stream == "" && x.chance(1, 12) {
+			h.SkipRespBody = true
+			x.s.AddFeature("skip-response-body")
+		}
 		r.Status = []int{204, 200, 202}[x.r.Intn(3)]
 		if x.chance(2, 3) {
 			// default response (let goa pick 204)
@@ -713,9 +740,27 @@ func (x *g) genResponses(sv *spec.Service, m *spec.Method) {
 			}
 		}
 	}
+	if !x.o.Runtime && !sv.GRPC && m.Stream == "" && !isView && rt.Kind == spec.Object && len(h.Responses) == 0 && x.chance(1, 9) {
+		// the service streams the response body itself: every result attribute must travel in a header
+		all := true
+		for _, a := range rt.Attrs {
+			if !inLocs(r.Headers, a.Name) {
+				all = false
+			}
+		}
+		if all && len(r.Cookies) == 0 {
+			h.SkipRespBody = true
+			x.s.AddFeature("skip-response-body")
+		}
+	}
 	if x.chance(1, 8) && !isView && rt.Kind == spec.Object {
 		r.ContentType = x.r.Pick("application/json", "application/vnd.lab+json")
 		x.s.AddFeature("response-content-type")
+	}
+	// text bodies: a String or Bytes result announced with a text media type travels verbatim (text encoder/decoder)
+	if (rt.Kind == spec.String || rt.Kind == spec.Bytes) && m.Result.Type.Kind != spec.Ref && (x.chance(1, 2) || x.o.Profile == "http-loc") {
+		r.ContentType = x.r.Pick("text/plain", "text/html", "application/vnd.lab+txt", "text/plain; charset=utf-8")
+		x.s.AddFeature("response-content-type-text", "response-text-"+rt.Kind)
 	}
 	h.Responses = append(h.Responses, r)
 }
